@@ -516,6 +516,9 @@ func runC02(r *Run) {
 	checkFloor(r, vs)
 	checkFeePrice(r)
 	checkValueErrors(r, vs)
+	checkBtcDelta(r, "C02.btcdelta")
+	checkBtcProcessEnd(r, "C02.btcend")
+	checkSuicideZeroes(r, "C02.suicide")
 	if handlersWith < 15 {
 		fail("C02.signguard: only %d handlers with a message amount reaching the data layer (expected >= 18)", handlersWith)
 	}
